@@ -16,7 +16,7 @@ from .. import core
 from .. import lattice as L
 
 LEVEL = "exploration"
-RETRY = dict(wait_fixed=1, stop_max_attempt_number=3)
+RETRY = dict(wait_exponential_multiplier=1, wait_exponential_max=1, stop_max_attempt_number=3)     # the keys of the library's own default, 1 ms waits
 
 
 def sq(x0, y0, x1, y1):
@@ -329,7 +329,7 @@ def run(ctx):
                 "npartitions 1..16 x tempdir_format (6 kinds, one ending in a slash) x compression x previous dataset (larger, smaller, or a single parquet file) with overwrite=True; in quick "
                 "the last three axes rotate over the full (frame, n, input partitions, npartitions) product. Non-trivial = "
                 "runs in which some requested output partitions came out empty.")
-    ctx.assumptions = ["_retry_args=(wait_fixed=1ms, 3 attempts) so that a failing run cannot stall the exploration",
+    ctx.assumptions = ["_retry_args=(1 ms waits, 3 attempts) so that a failing run cannot stall the exploration",
                        "temp formats keep {uuid}/{partition} in the leaf directory name"]
 
 
